@@ -34,6 +34,16 @@ def _bytes_of(it, o, a):
     return v if v[0] == "bytes" else None
 
 
+def _sentence_arg(it, fn):
+    """position of the &Sentence parameter of a private printing helper (parameters may be reordered)"""
+    f = it.world.fn_item(fn)
+    if f:
+        for i, ty in enumerate(f["inputs"]):
+            if "Sentence" in ty:
+                return i
+    return 0
+
+
 def line_events(it, o, n0, sentence_names):
     """abstract output/pipeline events of one loop iteration"""
     ev = []
@@ -46,9 +56,9 @@ def line_events(it, o, n0, sentence_names):
             bs = _bytes_of(it, o, e[3][1])
             ev.append(("NL",) if bs == ("bytes", (10,)) else ("CONST", bs[1]) if bs else ("BUF",))
         elif nm.endswith("predict::print_scores"):
-            ev.append(("SCORES", e[3][0]))
+            ev.append(("SCORES", e[3][_sentence_arg(it, nm)]))
         elif nm.endswith("predict::print_tag_scores"):
-            ev.append(("TAGSCORES", e[3][0]))
+            ev.append(("TAGSCORES", e[3][_sentence_arg(it, nm)]))
         elif nm == C.S + "::write_tokenized_text":
             ev.append(("WRITE", e[3][0]))
         elif nm.startswith(C.S + "::update_") or nm in (C.S + "::fill_tags", C.S + "::reset_tags", C.P + "::predict"):
